@@ -1397,11 +1397,16 @@ _ADDR = None
 
 
 def _norm_addr(t):
+    """addresses differ between processes, and so does the element order of sets whose members hash by
+    address (None before 3.12, Ellipsis, code objects): lines showing a set become character multisets"""
     global _ADDR
     if _ADDR is None:
         import re
         _ADDR = re.compile(r"0x[0-9a-f]{6,}")
-    return _ADDR.sub("0xX", t)
+    t = _ADDR.sub("0xX", t)
+    if "{" in t:
+        t = "\n".join(("".join(sorted(ln)) if ("{" in ln) else ln) for ln in t.split("\n"))
+    return t
 
 
 def do_hist_op(op):
